@@ -3,6 +3,11 @@
 import json, os, sys
 HERE = os.path.dirname(os.path.abspath(__file__))
 CLAIMED = {
+ "C17": ("model_checking",
+         "exhaustive enumeration of grid shapes x cell sizes x origins x rotations x dips, octree dimensions, drape layouts and all part labellings, plus explicit-state enumeration of all setter/read/re-open/copy sequences (depth<=2/3) per grid class, against reference formulas written from the format documentation",
+         "Static: every configuration of the lattice is built on the real library and its centroids / cells / parts are compared with formulas from docs/content/geoh5_format/analyst/objects.rst, live and after a fresh re-open. Cache model checking: every sequence of geometry setters, reads, re-opens and copies up to the stated length must end with centroids equal to the formula on the current attributes (a setter that forgets to invalidate the cache is a state-dependent failure the sequence finds).",
+         "1e-9 relative tolerance; block delimiters start at 0; dip sign fixed from the documented vertical case; lattices and depth bounded as printed in the evidence.",
+         "DESIGN.md §4 C17"),
  "C18": ("model_checking",
          "exhaustive enumeration of survey tables x query depths x environment answers, and explicit-state enumeration of all data-addition histories (depth<=2/3) on the real Drillhole, against a reference desurvey written from the statement",
          "PATH: every survey table of 1-3 (thorough 4) rows over the depth/azimuth/dip lattice, each driven through create / collar= / surveys= / re-open with all query depths (stations, mid and quarter points, float neighbours, beyond the end); DATA: every history of depth / interval data additions (unsorted, overlapping, collocated within tolerance, text and float) up to the stated length with re-open as an operation; clauses are the sentences of the statement (collar at depth zero, continuity, mean direction per leg, last direction beyond the end, vertex at its depth, cell joins from/to, value stays attached).",
